@@ -16,6 +16,18 @@
 //!   non-comment children at the end of the previous entry (−1 = new)
 //! * `log`: `(3 key gen)` children closure called, `(4 key gen)` the row's `on_cleanup` ran
 //! * `flags`: per rendered key `(key gen signal_disposed stored_value_disposed)`
+//!
+//! mode 13 — nested `<For>`: case `(13 npre npost (l0 … ln) (b0 … bn))`.  The row of key `k` of the outer
+//! `<For>` is `<For each=move || inner.get() …/>` followed by `(k odd).then(|| <li>)`: an inner `<For>` over
+//! the row's own `RwSignal<Vec<i64>>` whose rows are `<li>k.gen.i</li>` (`i` = inner key), and a trailing
+//! `<li>k.gen.-1</li>` for odd keys only, so that a row IS a keyed list (inside the `OwnedView` / `RenderEffect`
+//! states of the component) or starts with one.  A row is built with the inner list `pick(b, k)` of the current
+//! base list `b` (empty before step 0); step `s`: the outer keys are set to `l_s`, tick, observe `A`; then the
+//! base becomes `b_s` and the inner signal of every rendered row `k` is set to `pick(b_s, k)`, tick, observe `B`.
+//! `pick(b, k)` = `b` rotated left by `k mod (len b + 1)`, without its last element if `k mod 3 == 2`.
+//! observation per step `(A log flags B)`: `A` / `B` the non-comment children `(key gen i prev)` /
+//! siblings as above; `log` `(3 key gen)` / `(4 key gen)` for the OUTER rows; `flags` per rendered outer key
+//! `(key gen inner_signal_disposed stored_value_disposed)`.
 use any_spawner::Executor;
 use leptos::{html::li, mount::mount_to_renderer, prelude::*};
 use std::{cell::RefCell, collections::HashMap};
@@ -76,8 +88,95 @@ pub fn visible(parent: &Node, before: &[u64], enumerate: bool) -> (Sexp, Vec<u64
     (Lst(out), ids)
 }
 
+pub fn pick(base: &[i64], k: i64) -> Vec<i64> {
+    let r = (k as usize) % (base.len() + 1);
+    let mut v: Vec<i64> = base.iter().cycle().skip(r).take(base.len()).copied().collect();
+    if k % 3 == 2 {
+        v.pop();
+    }
+    v
+}
+
+thread_local! {
+    static BASE: RefCell<Vec<i64>> = RefCell::new(vec![]);
+    static INNER: RefCell<HashMap<i64, RwSignal<Vec<i64>>>> = RefCell::new(HashMap::new());
+}
+
+fn run_nested(c: &Sexp) -> Sexp {
+    let (npre, npost) = (c.at(1).num() as usize, c.at(2).num() as usize);
+    let lists: Vec<Vec<i64>> = c.at(3).list().iter().map(|l| l.nums()).collect();
+    let bases: Vec<Vec<i64>> = c.at(4).list().iter().map(|l| l.nums()).collect();
+    LOG.with(|l| l.borrow_mut().clear());
+    GEN.with(|g| *g.borrow_mut() = 0);
+    ROWS.with(|r| r.borrow_mut().clear());
+    INNER.with(|r| r.borrow_mut().clear());
+    BASE.with(|b| b.borrow_mut().clear());
+    let root = Owner::new();
+    let out = root.with(|| {
+        let parent = Dom::create_element("ul", None);
+        let keys = RwSignal::new(lists[0].clone());
+        let pre: Vec<String> = (0..npre).map(|i| format!("PRE{i}")).collect();
+        let post: Vec<String> = (0..npost).map(|i| format!("POST{i}")).collect();
+        let handle = mount_to_renderer(&parent, move || {
+            view! {
+                {pre}
+                <For each={move || keys.get()} key={|k: &i64| *k}
+                    children={move |k: i64| {
+                        let (g, _count) = row_state(k);
+                        let inner = RwSignal::new(BASE.with(|b| pick(&b.borrow(), k)));
+                        INNER.with(|r| r.borrow_mut().insert(k, inner));
+                        view! {
+                            <For each={move || inner.get()} key={|i: &i64| *i}
+                                children={move |i: i64| li().child(format!("{k}.{g}.{i}"))}
+                            />
+                            {(k % 2 == 1).then(|| li().child(format!("{k}.{g}.-1")))}
+                        }
+                    }}
+                />
+                {post}
+            }
+        })
+        .into_any_handle();
+        let mut out = vec![];
+        let mut before: Vec<u64> = vec![];
+        for (s, l) in lists.iter().enumerate() {
+            if s > 0 {
+                keys.set(l.clone());
+            }
+            tick();
+            let (a, ids_a) = visible(&parent, &before, false);
+            let log = Lst(LOG.with(|x| std::mem::take(&mut *x.borrow_mut())));
+            let base = bases.get(s).cloned().unwrap_or_default();
+            BASE.with(|b| *b.borrow_mut() = base.clone());
+            let mut flags = vec![];
+            for k in l {
+                let (g, _count, stored) = ROWS.with(|r| r.borrow()[k]);
+                let inner = INNER.with(|r| r.borrow()[k]);
+                let sd = inner.is_disposed();
+                let vd = stored.try_get_value().is_none();
+                flags.push(Sexp::from_nums([*k, g, sd as i64, vd as i64]));
+                if !sd {
+                    inner.set(pick(&base, *k));
+                }
+            }
+            tick();
+            let (b, ids_b) = visible(&parent, &ids_a, false);
+            before = ids_b;
+            out.push(Lst(vec![a, log, Lst(flags), b]));
+        }
+        drop(handle);
+        Lst(out)
+    });
+    drop(root);
+    tick();
+    out
+}
+
 pub fn run(c: &Sexp) -> Sexp {
     let _ = Executor::init_futures_executor();
+    if c.at(0).num() == 13 {
+        return run_nested(c);
+    }
     let enumerate = c.at(0).num() == 12;
     let (npre, npost) = (c.at(1).num() as usize, c.at(2).num() as usize);
     let lists: Vec<Vec<i64>> = c.at(3).list().iter().map(|l| l.nums()).collect();
